@@ -35,7 +35,8 @@ DESCR = {
     "m8_hkdf_shared_buffer": "hkdf_expand returns a module-level bytearray it reuses",
     "m9_generic_default_modulus": "curve packages set a default field_modulus on the generic base classes at import",
     "m10_locked_lazy_append_interruptible": "lock-protected lazy table filled with append, ready flag last (interruptible)",
-    "b1_lru_cache_prime_field_inv": "benign: functools.lru_cache on prime_field_inv",
+    "m11_lru_cache_untyped_prime_field_inv": "functools.lru_cache (typed=False) on prime_field_inv: a float equal to a cached int gets the int's result (was benign b1 until the check objected)",
+    "b1_lru_cache_prime_field_inv": "benign: functools.lru_cache(typed=True) on prime_field_inv",
     "b2_atomic_lazy_exptable": "benign: exptable built on first use, published with one assignment",
     "b3_locked_lazy_exptable": "benign: lock-protected lazy table with idempotent publication",
     "b4_h2g2_memo_ok": "benign: hash_to_G2 memo keyed by all arguments",
